@@ -1,3 +1,7 @@
 module verifharness
 
 go 1.25
+
+require github.com/pointlander/peg v0.0.0
+
+replace github.com/pointlander/peg => /repo
